@@ -32,6 +32,7 @@ type adminCluster struct {
 	pollSilent bool // the master never answers a procedure-state poll
 	finishAt   int  // the n-th poll answers FINISHED (0: never, always RUNNING)
 	polls      int32
+	onPoll     func()
 	mu         sync.Mutex
 	pollCtxs   []context.Context
 }
@@ -68,6 +69,9 @@ func (c *adminConn) QueueRPC(call hrpc.Call) {
 			msg = &pb.DisableTableResponse{ProcId: proto.Uint64(7)}
 		case "getProcedureResult":
 			n := int(atomic.AddInt32(&c.a.polls, 1))
+			if c.a.onPoll != nil {
+				c.a.onPoll()
+			}
 			c.a.mu.Lock()
 			c.a.pollCtxs = append(c.a.pollCtxs, call.Context())
 			c.a.mu.Unlock()
@@ -406,4 +410,35 @@ func apiResultsScenario(rng *RNG) string {
 		verdict = fmt.Sprintf("%d-answered-calls-failed", failed)
 	}
 	return "sim check increment-result-is-the-servers-answer " + verdict
+}
+
+// adminPollRateScenario (C17): a procedure that stays RUNNING: the state polls of an admin call are
+// spaced by the schedule (real time, 1.5 s).
+func adminPollRateScenario() string {
+	setSleepOverride(nil)
+	a := &adminCluster{}
+	var mu sync.Mutex
+	var ts []time.Time
+	a.onPoll = func() {
+		mu.Lock()
+		ts = append(ts, time.Now())
+		mu.Unlock()
+	}
+	wrap := func(real hrpc.RegionClient) hrpc.RegionClient { return &adminConn{a} }
+	v := gohbase.VerifNewClient(a, true, wrap, gohbase.Logger(discardLogger))
+	defer v.Client().Close()
+	ctx, cancel := context.WithTimeout(context.Background(), 1500*time.Millisecond)
+	defer cancel()
+	t0 := time.Now()
+	adminCall(v, "createtable", ctx)
+	mu.Lock()
+	defer mu.Unlock()
+	var atts []string
+	for _, t := range ts {
+		atts = append(atts, fmt.Sprintf("x.adminpoll.%d", t.Sub(t0).Microseconds()))
+	}
+	if len(atts) == 0 {
+		atts = []string{"-"}
+	}
+	return fmt.Sprintf("c17 rate admin-poll %s", strings.Join(atts, ";"))
 }
